@@ -2,7 +2,7 @@
 
 
 def run(ctx):
-    ctx.lean_obligations(["SV.Props.C18"], drivers=["svdriver_c18"])
+    ctx.lean_obligations(["SV.Props.C18", "SV.Props.C18x"], drivers=["svdriver_c18"])
     quick = ctx.tier == "quick"
     seeds = [None] if quick else [None, ctx.seed * 7919 + 1, ctx.seed * 7919 + 2]
 
@@ -16,6 +16,10 @@ def run(ctx):
     if b:
         for i, s in enumerate(seeds):
             ctx.correspond(b, "TestVerifC18Keychain", "svdriver_c18", f"c18k{i}", env=env(200 if quick else 4000, s))
+        # credential queries IN FLIGHT (window widened by a large valid base64 auth) while the same
+        # reference is removed / pulled again, then queried sequentially once everything returned:
+        # real-time-order oracle (timing-independent) + the linearised history through the model
+        ctx.correspond(b, "TestVerifC18KeychainInflight", "svdriver_c18", "c18kfly", env={"VERIF_N": 3 if quick else 12})
     # concurrent pull / remove / query under the race detector: replaces any assumption about how
     # the keychain locks its map by an observation (a reported data race fails the run = violation
     # whose replay holds the detector's report with both goroutine stacks)
@@ -57,6 +61,10 @@ def run(ctx):
              "connect/PullImage/RemoveImage/credentials over 2-5 images (shared repositories, alias spellings of one "
              "reference), 20 auth forms, 16 server-address spellings, backend failures, requests before the backend is "
              "connected; a history is distinct by its op-kind sequence and number of references; "
+             "in-flight stream: 9 scenarios (remove, newer pull with token / anonymous / other server address, "
+             "remove-then-pull, pull-then-remove, docker.io alias hosts and spellings, control on another tag) x N rounds: "
+             "4 staggered queries held inside auth parsing by a 12 MiB valid base64 auth while the mutation runs, then "
+             "sequential re-queries on every host, judged by real-time order (timing-independent); "
              "resolver: url.Parse(..).Host vs the URL-host model on fixed + random strings, ParseAuth on generated "
              "configs, multiCredsFuncs over 0-5 functions (empty / user / secret / both / error), "
              "RegistryHostsFromConfig over 0-4 mirrors with and without header tables; "
@@ -71,7 +79,9 @@ def run(ctx):
         assumptions=[
             "each PullImage/RemoveImage/credentials call takes effect atomically, so every schedule is a history of "
             "the operations the theorems quantify over; not assumed from the source text but observed: concurrent "
-            "pull/remove/query runs under the race detector with a per-reference oracle (TestVerifC18KeychainConc)",
+            "pull/remove/query runs under the race detector with a per-reference oracle (TestVerifC18KeychainConc), and "
+            "queries in flight across a remove / newer pull of their own reference followed by sequential re-queries "
+            "(TestVerifC18KeychainInflight; SV.Props.C18x: queries are events of the schedule and leave no trace)",
             "norm = distribution.ParseDockerRef + reference.Parse is a parameter of the keychain theorems; the concrete "
             "normDocker used by the driver is validated on the generated grammar only",
             "url.Parse: the URL-host model is exact for addresses without '%', '[' and control bytes (validated against "
